@@ -6,6 +6,13 @@ pid = sys.argv[1]
 n = sys.argv[2] if len(sys.argv) > 2 else "1"
 p = props[pid]
 wt = "/tmp/mut/%s" % (pid if n == "1" else "%s-%s" % (pid, n))
+twist = ""
+if n != "1":
+    twist = ("This is a second round: the obvious places have already been tried. Produce TWO independent changes (deliver them as out/1/ and out/2/, each with its own "
+             "patch.diff, demo and README.md, each verified on its own from a clean checkout). They must differ from each other in mechanism and in the function they touch. "
+             "Stay away from the single most obvious line for this property; prefer a site one or two calls away from where the behaviour is visibly implemented - a helper, "
+             "a conversion, a constant or table, a builder, an initialiser, a comparison operator, an ordering of two statements - or a change that only matters in combination "
+             "with existing code elsewhere. For each of the two: ")
 print(f"""You are testing how robust a chess engine's quality gates are. The engine is the Rust crate `rust_chess_engine` (BrandonHarrisonCode/RCE: bitboard board with make/unmake, magic-bitboard move generation, Zobrist hashing, alpha-beta search with a transposition table, FEN and UCI). A scratch git worktree of it is at {wt}/repo . Work ONLY inside {wt}/ . Do NOT read, list or touch /verif, and do NOT modify /repo.
 
 The property under test (a behavioural guarantee the engine is supposed to give):
@@ -14,7 +21,7 @@ The property under test (a behavioural guarantee the engine is supposed to give)
   Statement: {p['statement']}
   Holds: {p['quantifier']['text']}
 
-Your job: make ONE small, realistic source change to the engine (the kind of slip or well-meant "improvement" a developer could commit) that BREAKS this property, while
+{twist}Your job: make ONE small, realistic source change to the engine (the kind of slip or well-meant "improvement" a developer could commit) that BREAKS this property, while
   (a) the crate still compiles (`cargo build --offline` in the worktree; the toolchain is nightly via rust-toolchain, there is no network), and
   (b) the existing test suite still passes unchanged: `cargo test --workspace --no-fail-fast --offline` must report 329 passed, 0 failed (do not edit, add to, or delete existing tests).
 The change should need something specific to manifest - a particular position or move sequence, an unusual but valid input, a particular interleaving or timing, a multi-step sequence of commands, or two cooperating sites that each look fine alone - not something ordinary use would expose at once. Prefer a change in the logic a reader would have to think about; avoid changes that are only cosmetic or that merely rename things. Keep it to a few lines.
